@@ -78,8 +78,10 @@ def assume_config(cls: str, label: str, expr: str):
 
 
 def contract(target: str, prop: str, **kw) -> Contract:
+    variant = kw.pop("variant", None)       # a second contract on the same function under a different typing of its inputs
     c = Contract(target, prop, **kw)
-    key = f"{prop}:{target}"
+    key = f"{prop}:{target}" + (f"#{variant}" if variant else "")
+    c.variant = variant
     REG.contracts[key] = c
     REG.order.append(key)
     return c
